@@ -113,7 +113,7 @@ PROPS['C17'] = {
     'design_ref': 'DESIGN.md section 5 C17',
 }
 PROPS['C07'] = {
-    'units': ['rename', 'topo', 'cfg', 'cfg_all', 'merge', 'write'], 'kani': ['kint'],
+    'units': ['rename', 'topo', 'cfg', 'cfg_all', 'merge', 'write', 'tos'], 'kani': ['kint'],
     'title': 'never panics or spins (kernel)',
     'technique': 'panic-freedom (unwrap/index/slice/overflow/callee preconditions) and termination (decreases) obligations of every function put under '
                  'contract for the other properties, with weakest preconditions (Verus); Kani overflow/cast checks on integer.rs',
@@ -128,9 +128,21 @@ PROPS['C07'] = {
                   'process level: worker panic inside the parallel walker, channel dead-lock, hangs (no thread support in either verifier)'],
 }
 
+PROPS['C13'] = {
+    'units': ['tos'],
+    'title': '--target-os accept/reject rule (kernel)',
+    'technique': 'Verus contracts on TargetOsIterator::next (scope propagation over an opaque syn::Meta, termination from a finite-tree axiom), '
+                 'accept_target_os (early return + decision rule) and parser.rs::is_skipped, extracted verbatim with the syn-facing expressions outlined',
+    'level_text': 'For every meta tree (any depth, any arity): next() yields exactly the target_os leaves in stack order, each with scope Reject iff it '
+                  'or an ancestor is `not` (or the pushed scope was Reject); accept_target_os returns true without --target-os and otherwise exactly '
+                  'the documented rule over the accepted / rejected name lists; is_skipped is skip-marker OR NOT rule.',
+    'level_note': 'Kernel: the plumbing from attributes to the two lists (flat_map / partition over syn values) and the call sites at file / type level '
+                  '(visitors.rs) are assumed / not decided; syn types are stubs with uninterpreted observers.',
+    'design_ref': 'DESIGN.md section 5 C13',
+}
+PROPS['C07']['units'].append('tos')
+
 NOT_APPLICABLE = {k: NA_TEXT for k in ['C01', 'C02', 'C04', 'C05', 'C08', 'C09', 'C10', 'C12', 'C14', 'C15', 'C19']}
-NOT_APPLICABLE.update({k: 'unit not built yet in this round (see DESIGN.md build order)' for k in
-                       ['C13']})
 
 ALL_UNITS = ['topo', 'rename', 'cfg', 'cfg_all', 'merge', 'write']
 ALL_KANI = ['kint']
